@@ -1,4 +1,5 @@
 import DmrVerif.Model.Codes
+import DmrVerif.Model.CodesStore
 import DmrVerif.Gen.Codes
 
 /-! line-protocol operations for the block codes (C06) -/
@@ -42,5 +43,90 @@ def codesOp (op : String) (args : List String) : Option String :=
     if w.length != C.n then some "ERR assert" else
     some (bitsToString (C.correct w))
   | _, _ => none
+
+/-! ### the argument given as a bitarray buffer: `<endian> <len> <hex of tobytes()>` -/
+
+def endianOfString : String → Option Bool
+  | "big" => some false
+  | "little" => some true
+  | _ => none
+
+/-- a buffer is accepted when it has exactly the octets of `len` bits (pad bits are not inspected:
+`bitarray` ignores them) -/
+def storeArg (e len hex : String) : Option (Bool × Bytes × Nat) := do
+  let e ← endianOfString e
+  let n ← len.toNat?
+  let bs ← hexToBytes hex
+  if bs.length != (n + 7) / 8 then none else some (e, bs, n)
+
+def storeOp (op : String) (args : List String) : Option String :=
+  match op, args with
+  | "code.genS", [c, e, len, hex] => do
+    let C ← codeByName c
+    let (e, bs, n) ← storeArg e len hex
+    if n != C.k then some "ERR assert" else
+    some (bitsToString (C.genStore e bs n))
+  | "code.checkS", [c, e, len, hex] => do
+    let C ← codeByName c
+    let (e, bs, n) ← storeArg e len hex
+    if n != C.n then some "ERR assert" else
+    some (b01 (C.checkStore e bs n))
+  | "code.cacS", [c, e, len, hex] => do
+    let C ← codeByName c
+    let (e, bs, n) ← storeArg e len hex
+    if n != C.n then some "ERR assert" else
+    let r := C.cacStore e bs n
+    some (b01 r.1 ++ " " ++ bytesToHex' r.2)
+  | _, _ => none
+
+/-! ### histories: every result is kept as an object (`Heap`), `h.read` shows its current content -/
+
+def histStep (h : Heap) (op : String) (args : List String) : Heap × String :=
+  let bad := (h, "ERR bad-op " ++ op)
+  match op, args with
+  | "h.reset", [] => (Heap.empty, "ok")
+  | "h.gen", [c, m] =>
+    match codeByName c, bitsOfString m with
+    | some C, some m =>
+      if m.length != C.k then (h, "ERR assert") else
+      let h' := (HOp.gen C m).run h
+      (h', toString h.size ++ " " ++ bitsToString ((h'.read h.size).getD []))
+    | _, _ => bad
+  | "h.check", [c, w] =>
+    match codeByName c, bitsOfString w with
+    | some C, some w =>
+      if w.length != C.n then (h, "ERR assert") else
+      ((HOp.check C w).run h, b01 (C.check w))
+    | _, _ => bad
+  | "h.cac", [c, w] =>
+    match codeByName c, bitsOfString w with
+    | some C, some w =>
+      if w.length != C.n then (h, "ERR assert") else
+      let h' := (HOp.cac C w).run h
+      (h', toString h.size ++ " " ++ b01 (C.checkAndCorrect w).1 ++ " " ++ bitsToString ((h'.read h.size).getD []))
+    | _, _ => bad
+  | "h.correct", [c, w] =>
+    match codeByName c, bitsOfString w with
+    | some C, some w =>
+      if w.length != C.n then (h, "ERR assert") else
+      let h' := (HOp.correct C w).run h
+      (h', toString h.size ++ " " ++ bitsToString ((h'.read h.size).getD []))
+    | _, _ => bad
+  | "h.overwrite", [r, v] =>
+    match r.toNat?, bitsOfString v with
+    | some r, some v =>
+      if r < h.size then ((HOp.overwrite r v).run h, "ok") else (h, "ERR ref")
+    | _, _ => bad
+  | "h.read", [r] =>
+    match r.toNat? with
+    | some r =>
+      match h.read r with
+      | some v => (h, bitsToString v)
+      | none => (h, "ERR ref")
+    | none => bad
+  | _, _ =>
+    match [codesOp, storeOp].findSome? (fun f => f op args) with
+    | some out => (h, out)
+    | none => bad
 
 end Dmr.Driver
